@@ -7,6 +7,12 @@ from vf import common, srun
 
 def build(sc):
   from vf import bmc_models as M
+  if sc.get('kind') == 'prefetch':
+    sysm = M.build_prefetch_system(sc['items'], sc['prefetch'], sc['batch'], fail=tuple(sc['fail']) if sc.get('fail') else None, stopper=sc.get('stopper'))
+    drivers = {'prefetch': M.WORKER.format(src='SRC0'), 'client': M.CLIENT_LOOP.format(bs=sc['batch'])}
+    if sc.get('stopper'):
+      drivers['shutdown'] = M.SHUTDOWN.format(fatal='True' if sc['stopper'] == 'fatal' else 'False')
+    return sysm, drivers
   if sc.get('kind') == 'mux':
     ns = sc.get('num_steps', 255)
     sysm = M.build_multiplex_system(sc['par'], sc['items'], shared=sc.get('shared', True), num_steps=('NS', ns if isinstance(ns, tuple) else (ns, ns)),
@@ -48,6 +54,8 @@ def predicates(sc, sysm):
   import z3
   from vf import bmc_models as M
   pred = sc.get('pred', 'c04')
+  if pred == 'c15':
+    return (lambda enc, st: z3.Not(M.c15_ok(enc, sysm, st))), (lambda logs, params: M.c15_ok_py(sysm.meta, logs, params))
   if pred == 'c13':
     nsd = sysm.objects['DQ'].consts['_num_steps']
     return (lambda enc, st: z3.Not(M.c13_ok(enc, sysm, st))), (lambda logs, params: M.c13_ok_py(sysm.meta, logs, params, nsd if isinstance(nsd, int) else 255))
@@ -79,7 +87,7 @@ def worker(job):
              encoded_lines=len(sysm.meta['encoded_lines']), dropped_logging_lines=len(sysm.meta['dropped_lines']), bmc_wall=round(time.time() - t0, 1))
   out['threads'] = [p.name for p in sysm.threads]
   if r.trace is not None:
-    glue = M.multiplex_threads if sc.get('kind') == 'mux' else M.queue_threads
+    glue = {'mux': M.multiplex_threads, 'prefetch': M.prefetch_threads}.get(sc.get('kind'), M.queue_threads)
     make, logs, holder = glue(sysm, r.enc, r.trace, drivers)
     try:
       rr = R.run_schedule(sysm, r.enc, r.trace, make)
@@ -111,6 +119,14 @@ def worker(job):
 
 def signature(res):
   t = res.get('trace') or {}
+  sc = res.get('scenario') or {}
+  if sc.get('pred') == 'c15' and res['verdict'] == 'violation' and 'generator failed at position' in (res.get('what') or ''):
+    logs = ((res.get('replay') or {}).get('logs') or {}).get('LOG0') or []
+    fail = (t.get('params') or {}).get('FAIL0', 255)
+    items = [e for e in logs if e[0] == 0]
+    if logs and logs[-1][0] == 2 and len(items) < fail and items == sorted(items):
+      # known finding: the error marker arrives, in order, but elements dequeued into the same (partial) batch are dropped
+      return 'prefetch-failure-discards-the-partial-batch-dequeued-before-it'
   fin = t.get('final') or {}
   blocked = sorted((n.rstrip('0123456789'), f['op'], f['line']) for n, f in fin.items() if not f['halted'])
   return f"{res['verdict']}:{blocked}" if res['verdict'] == 'deadlock' else f"{res['verdict']}:{res['job']}"
@@ -168,7 +184,7 @@ def replay(data):
   enc = B.Encoder(sysm)
   enc._ppset = [set(p) for p in enc.pp]
   trace = data['trace']
-  glue = M.multiplex_threads if sc.get('kind') == 'mux' else M.queue_threads
+  glue = {'mux': M.multiplex_threads, 'prefetch': M.prefetch_threads}.get(sc.get('kind'), M.queue_threads)
   make, logs, holder = glue(sysm, enc, trace, drivers)
   try:
     rr = R.run_schedule(sysm, enc, trace, make)
